@@ -1509,3 +1509,11 @@ fn set_font_selection_success(buf: &mut Buffer, caret: &mut Caret, slot: usize) 
 pub fn parse_next_number(x: i32, ch: u8) -> i32 {
     x.saturating_mul(10).saturating_add(ch as i32).saturating_sub(b'0' as i32)
 }
+
+#[cfg(icy_engine_verif)]
+impl Parser {
+    /// Verification hook: read access to the stored macro bodies.
+    pub fn verif_macros(&self) -> &HashMap<usize, String> {
+        &self.macros
+    }
+}
